@@ -748,6 +748,8 @@ class TimeExceeded (icmp_base):
   def hdr (self, payload):
     return struct.pack('!I', 0) # Unused
 
+  pack = packet_base.pack
+
 
 class PacketTooBig (icmp_base):
   "Packet Too Big Message"
@@ -793,6 +795,8 @@ class PacketTooBig (icmp_base):
 
   def hdr (self, payload):
     return struct.pack('!I', self.mtu)
+
+  pack = packet_base.pack
 
 
 class unpack_new_adapter (object):
